@@ -69,7 +69,7 @@ class Stream(object):
 
     def __init__(self, name, kind, make, check, budget=None, timeout=10.0,
                  rule="", tiers=("quick", "thorough"), hang_is_violation=False,
-                 steps=None, weight=1.0):
+                 steps=None, weight=1.0, chunk=2500):
         self.name = name
         self.kind = kind
         self.make = make
@@ -80,6 +80,9 @@ class Stream(object):
         self.tiers = tiers
         self.hang_is_violation = hang_is_violation
         self.steps = steps or {"quick": 30, "thorough": 50}
+        # cases per worker process: a processed plasTeX document is never freed (tokens are str
+        # subclasses that keep their document alive), so long runs are cut into fresh processes
+        self.chunk = chunk
 
 
 def canonical(case):
